@@ -183,117 +183,12 @@ func c09EmbedPieces(c *Ctx, docs []c09Doc, node *c09JS, maxPiece int) []c09Piece
 	return ps
 }
 
-// payloads that do not contain the end tag of their host element but whose MINIFIED form does (the sub-minifier removes the
-// white space / respells the escape that kept `<` and `/tag` apart): K-C09-3, fixed by docs/C09-html-fix-1.patch (html.go
-// re-reads `<tag>`+result+`</tag>` and keeps the original payload when the result is not read back as one text token)
+// payloads that do not contain the end tag of their host element but whose MINIFIED form would (the sub-minifier removes the
+// white space that kept `<` and `/tag` apart): K-C09-3, fixed in /repo by 1557146 (html.go re-reads `<tag>`+result+`</tag>` and
+// keeps the original payload unless the result is read back as one text token) and a80add2 (js).  Regression inputs: they
+// must pass every oracle of this stage.
 var c09HostileCSS = []string{"a{b:< /style >}", "a{b:c}d{e:< /STYLE >;f:g}", "a{b:< /*x*/ /style >}"}
 var c09HostileJS = []string{"x = a< /script >/.test(b)", "var y = b< /script\t>/i.exec(c)"}
-var c09ReHostile = regexp.MustCompile(`(?i)<(\s|/\*[^*]*\*/)+/(script|style)[\s/>]`)
-
-// c09JsDecodeEscapes: every backslash escape of JavaScript string / template / regular-expression source text decoded where the
-// result is ASCII (`\xHH`, `\uHHHH`, `\u{H…}`, legacy octal, identity escapes such as `\/`, `\i`); used only to find SPELLINGS
-func c09JsDecodeEscapes(b []byte) []byte {
-	out := make([]byte, 0, len(b))
-	hexv := func(c byte) int {
-		switch {
-		case '0' <= c && c <= '9':
-			return int(c - '0')
-		case 'a' <= c && c <= 'f':
-			return int(c-'a') + 10
-		case 'A' <= c && c <= 'F':
-			return int(c-'A') + 10
-		}
-		return -1
-	}
-	for i := 0; i < len(b); i++ {
-		if b[i] != '\\' || i+1 >= len(b) {
-			out = append(out, b[i])
-			continue
-		}
-		c := b[i+1]
-		switch {
-		case c == 'x' && i+3 < len(b) && hexv(b[i+2]) >= 0 && hexv(b[i+3]) >= 0:
-			out = append(out, byte(hexv(b[i+2])*16+hexv(b[i+3])))
-			i += 3
-		case c == 'u' && i+5 < len(b) && hexv(b[i+2]) >= 0 && hexv(b[i+3]) >= 0 && hexv(b[i+4]) >= 0 && hexv(b[i+5]) >= 0:
-			v := hexv(b[i+2])<<12 | hexv(b[i+3])<<8 | hexv(b[i+4])<<4 | hexv(b[i+5])
-			if v < 128 {
-				out = append(out, byte(v))
-			} else {
-				out = append(out, '?')
-			}
-			i += 5
-		case c == 'u' && i+2 < len(b) && b[i+2] == '{':
-			j, v := i+3, 0
-			for j < len(b) && hexv(b[j]) >= 0 && v < 0x110000 {
-				v = v*16 + hexv(b[j])
-				j++
-			}
-			if j < len(b) && b[j] == '}' && j > i+3 {
-				if v < 128 {
-					out = append(out, byte(v))
-				} else {
-					out = append(out, '?')
-				}
-				i = j
-			} else {
-				out = append(out, '\\')
-			}
-		case '0' <= c && c <= '7':
-			j, v := i+1, 0
-			for j < len(b) && j < i+4 && '0' <= b[j] && b[j] <= '7' && v*8+int(b[j]-'0') < 256 {
-				v = v*8 + int(b[j]-'0')
-				j++
-			}
-			if v < 128 {
-				out = append(out, byte(v))
-			} else {
-				out = append(out, '?')
-			}
-			i = j - 1
-		case c == 'n' || c == 'r' || c == 't' || c == 'b' || c == 'f' || c == 'v' || c == '\n' || c == '\r':
-			out = append(out, ' ')
-			i++
-		default:
-			out = append(out, c)
-			i++
-		}
-	}
-	return out
-}
-
-func c09CountFold(b []byte, pats ...string) int {
-	l := bytes.ToLower(b)
-	n := 0
-	for _, p := range pats {
-		n += bytes.Count(l, []byte(p))
-	}
-	return n
-}
-
-// c09EmbedKnown: narrow INPUT-side triggers of the open findings in which an embedded payload minifies to the end tag or the
-// comment opener of its HTML host element ("" = none applies).  The spellings that the minifiers do guard — `<\/script` and
-// `\x3C/script` (commit 1f79000) — are NOT triggers, so a regression of that guard is still reported.
-func c09EmbedKnown(in []byte) string {
-	if c09ReHostile.Match(in) {
-		return "K-C09-3" // `< /script >` / `< /style >`: white space or a comment between `<` and `/tag` (also K-C09-JS-7)
-	}
-	// K-C09-JS-5: `</script` spelled with another escape (`<\57script`, `<\x2fscript`, `</\script`, `<\/scr\ipt`, `\u{3c}/script` …)
-	if c09CountFold(c09JsDecodeEscapes(in), "</script") > c09CountFold(in, "</script", "<\\/script", "\\x3c/script", "\\x3c\\/script") {
-		return "K-C09-JS-5"
-	}
-	// K-C09-JS-6 / K-C09-HTML-8: `<!--` inside a script element, literally or put together by the minifier (`'<'+'!--'`, `<\!--`)
-	l := bytes.ToLower(in)
-	if i := bytes.Index(l, []byte("<script")); i >= 0 {
-		rest := l[i:]
-		if c09ReCommentInScript.Match(rest) {
-			return "K-C09-HTML-8"
-		}
-	}
-	return ""
-}
-
-var c09ReCommentInScript = regexp.MustCompile(`(?s)^<script[^>]*>([^<]|<[^/])*?(<!--|<\\!--|<['"]\s*\+\s*['"]!--)`)
 
 var c09AttrCSS = []string{"color:#ff0000;margin:0px 0px 0px 0px", `background:url("a b.png") no-repeat`, `font-family:"Times New Roman",serif`, `content:'"'`, `content:"'"`, "width:calc(100% - 10px)", `quotes:'<' '>'`, "--x: {a:b}", `background:url(data:image/png;base64,AAAA)`}
 var c09AttrJS = []string{`return false`, `alert("a" + 'b')`, `x = a < b && c > d`, "f(`t${a}`)", `if (a) { b() } else { c() }`, `s = "</div>" + '&amp;'`, `javascript:void(0)`, `a = b ? "x" : 'y'`, `e = /"'/.test(s)`}
@@ -341,7 +236,6 @@ func c09EmbedStage(c *Ctx, docs []c09Doc, node *c09JS, m *minify.M) {
 		nBody := 3 + r.Intn(c.N(8, 24))
 		target := 20000 + r.Intn(budget)
 		hostile := false
-		hostileAt := map[int]bool{} // index in `want` of a payload that minifies to its host's end tag
 		add := func(p c09Piece) {
 			doc.Write(p.html)
 			switch p.kind {
@@ -400,11 +294,9 @@ func c09EmbedStage(c *Ctx, docs []c09Doc, node *c09JS, m *minify.M) {
 				if r.Chance(50) {
 					doc.WriteString(c09Cond[r.Intn(len(c09Cond))])
 				} else if r.Bool() {
-					hostileAt[len(want)] = true
 					add(c09Piece{"css", []byte("<style>" + c09HostileCSS[r.Intn(len(c09HostileCSS))] + "</style>"), nil, true})
 					hostile = true
 				} else {
-					hostileAt[len(want)] = true
 					add(c09Piece{"js", []byte("<script>" + c09HostileJS[r.Intn(len(c09HostileJS))] + "</script>"), nil, true})
 					hostile = true
 				}
@@ -464,11 +356,6 @@ func c09EmbedStage(c *Ctx, docs []c09Doc, node *c09JS, m *minify.M) {
 		if hostile {
 			st.Tag("hazard=payload-minifies-to-host-end-tag")
 		}
-		if (!ok || !reflect.DeepEqual(eout.kinds, ein.kinds)) && hostile && c09ReHostile.Match(in) {
-			c.R.ExcludedKnown++ // K-C09-3
-			st.Tag("known=K-C09-3")
-			continue
-		}
 		if !ok || !reflect.DeepEqual(eout.kinds, ein.kinds) {
 			fail("x/net/html finds a different sequence of embedded elements in the output", fmt.Sprintf("%v vs %v", ein.kinds, eout.kinds), o)
 			continue
@@ -476,20 +363,15 @@ func c09EmbedStage(c *Ctx, docs []c09Doc, node *c09JS, m *minify.M) {
 		// what a reader sees as text outside script / style / svg / math is the same up to white space: a raw-text element or a
 		// comment that ends early turns payload into visible text, an element that does not end swallows text
 		if vi, vo := c09VisibleText(in), c09VisibleText(o); !bytes.Equal(vi, vo) {
-			if hostile && c09ReHostile.Match(in) {
-				c.R.ExcludedKnown++ // K-C09-3
-				st.Tag("known=K-C09-3")
-			} else {
-				i := 0
-				for i < len(vi) && i < len(vo) && vi[i] == vo[i] {
-					i++
-				}
-				a := i - 40
-				if a < 0 {
-					a = 0
-				}
-				fail("the visible text of the output differs from the visible text of the input (white space ignored)", fmt.Sprintf("at %d: %s vs %s", i, h.Q(trunc(vi[a:], 120)), h.Q(trunc(vo[a:], 120))), o)
+			i := 0
+			for i < len(vi) && i < len(vo) && vi[i] == vo[i] {
+				i++
 			}
+			a := i - 40
+			if a < 0 {
+				a = 0
+			}
+			fail("the visible text of the output differs from the visible text of the input (white space ignored)", fmt.Sprintf("at %d: %s vs %s", i, h.Q(trunc(vi[a:], 120)), h.Q(trunc(vo[a:], 120))), o)
 			continue
 		}
 		segsIn, segsOut := c09SvgSegments(in), c09SvgSegments(o)
@@ -499,13 +381,6 @@ func c09EmbedStage(c *Ctx, docs []c09Doc, node *c09JS, m *minify.M) {
 			p := eout.payload[i]
 			switch kind {
 			case "script":
-				if hostileAt[i] && c09ReHostile.Match(in) {
-					if ok, _ := node.valid(p); !ok {
-						c.R.ExcludedKnown++ // K-C09-3: the script element ends inside the payload
-						st.Tag("known=K-C09-3")
-					}
-					break
-				}
 				if ok, e := node.valid(p); !ok {
 					fail("V8 rejects an embedded script of the output (it accepted the composed one)", fmt.Sprintf("#%d %s: %s", i, e, h.Q(trunc(p, 200))), o)
 				}
@@ -521,13 +396,6 @@ func c09EmbedStage(c *Ctx, docs []c09Doc, node *c09JS, m *minify.M) {
 					fail("embedded JSON of the output has a different value", fmt.Sprintf("#%d %s", i, h.Q(trunc(p, 200))), o)
 				}
 			case "style":
-				if hostileAt[i] && c09ReHostile.Match(in) {
-					if !c09CSSValid(p) {
-						c.R.ExcludedKnown++ // K-C09-3: the style element ends inside the payload
-						st.Tag("known=K-C09-3")
-					}
-					break
-				}
 				if !c09CSSValid(p) {
 					fail("embedded style sheet of the output is unbalanced (the composed one is balanced)", fmt.Sprintf("#%d %s", i, h.Q(trunc(p, 200))), o)
 				}
